@@ -531,7 +531,16 @@ class Job:
                     jobs=[self], filename=self._statepoint_filename
                 )
                 self._statepoint_requires_init = False
-            self.statepoint.reset(new_statepoint)
+                try:
+                    self._statepoint.reset(new_statepoint)
+                except Exception:
+                    if not self._statepoint._data:
+                        # The assignment was refused (e.g. an invalid key): the
+                        # empty instance must not pass for the job's state point.
+                        self._statepoint_requires_init = True
+                    raise
+            else:
+                self.statepoint.reset(new_statepoint)
 
         # Register the state point the job actually has now: the reset above
         # keeps existing values that compare equal to the new ones (1 vs 1.0).
